@@ -700,6 +700,13 @@ func (env *Env) indexTerm(a, i Term, x SExpr) Term {
 			return Term{S: fmt.Sprintf("(select (select %s %s) %s)", env.curHeap()(c, s), a.S, i.S), Sort: vc.sortOf(el), T: el}
 		}
 	}
+	if mt, ok := typeUnder[*types.Map](a.T); ok {
+		// map lookup: zero value when the key is absent
+		vC, vS, hC, hS := vc.mapComps(mt.Key(), mt.Elem())
+		val := fmt.Sprintf("(select (select %s %s) %s)", env.curHeap()(vC, vS), a.S, i.S)
+		has := fmt.Sprintf("(select (select %s %s) %s)", env.curHeap()(hC, hS), a.S, i.S)
+		return Term{S: fmt.Sprintf("(ite %s %s %s)", has, val, vc.zeroValue(mt.Elem())), Sort: vc.sortOf(mt.Elem()), T: mt.Elem()}
+	}
 	efail("%s: cannot index sort %s", x, a.Sort)
 	return Term{}
 }
@@ -972,14 +979,14 @@ func (env *Env) elabCall(x *SCall) Term {
 			ver = vc.entryVersion()
 		}
 		argTerms := []string{recv.S, ver}
-		sorts := []string{"Int", "Int"}
+		sorts := []string{recv.Sort, "Int"}
 		for _, ax := range x.Args[2:] {
 			a := env.elab(ax)
 			argTerms = append(argTerms, a.S)
 			sorts = append(sorts, a.Sort)
 		}
 		fname := fmt.Sprintf("obs$%s$0", mangle(mid.Name))
-		vc.decl(fname, fmt.Sprintf("(declare-fun %s (%s) %s)", fname, strings.Join(sorts, " "), rs))
+		vc.declObs(fname, sorts, rs, rt)
 		t := Term{S: fmt.Sprintf("(%s %s)", fname, strings.Join(argTerms, " ")), Sort: rs, T: rt}
 		return t
 	case "iserr":
